@@ -150,6 +150,9 @@ static void scGnat(tse::Out &out)
         std::vector<P> k;
         nn.nearestK(P{2.6, 0.1}, 3, k);
         ok1 &= dists(P{2.6, 0.1}, k) == brute(P{2.6, 0.1}, 3);
+        // a query that needs EVERY element: a child that is skipped (or visited twice) at any internal node shows in the answer
+        nn.nearestK(P{1.1, 0.9}, pts.size(), k);
+        ok1 &= dists(P{1.1, 0.9}, k) == brute(P{1.1, 0.9}, pts.size());
     });
     std::thread t2([&] {
         std::vector<P> k;
@@ -161,6 +164,8 @@ static void scGnat(tse::Out &out)
         ok2 &= dists(P{1.5, 1.5}, k) == want;
         P r = nn.nearest(P{3.4, 2.2});
         ok2 &= dists(P{3.4, 2.2}, {r}) == brute(P{3.4, 2.2}, 1);
+        nn.nearestR(P{2.2, 1.4}, 100.0, k);
+        ok2 &= dists(P{2.2, 1.4}, k) == brute(P{2.2, 1.4}, pts.size());
     });
     t1.join();
     t2.join();
@@ -916,7 +921,7 @@ static std::vector<Scenario> scenarios()
 {
     return {
         {"motion", scMotion, true, 1, 2, 50000},
-        {"gnat", scGnat, true, 1, 2, 50000},
+        {"gnat", scGnat, true, 2, 3, 50000},  // P = 2 already in the quick tier: with nodes of even degree a corrupted child permutation needs the OTHER thread stopped mid-visit too
         {"rng", scRng, true, 1, 2, 50000},
         {"solutions", scSolutions, true, 1, 2, 50000},
         {"logging", scLogging, true, 1, 2, 50000},
